@@ -2,6 +2,7 @@
 #include "gen.hpp"
 #include "harness.hpp"
 #include "shapeobs.hpp"
+#include <algorithm>
 #include <sstream>
 
 using namespace nifly;
@@ -81,5 +82,78 @@ std::string run(const Args& a) {
 		return out;
 	}, 60);
 }
-Reg r1("c17.run", run);
+std::string segRows(const BSSubIndexTriShape::BSSITSSegmentation& sg) {
+	std::string o;
+	for (auto& g : sg.segments) {
+		std::string subs;
+		for (auto& ss : g.subSegments)
+			subs += (subs.empty() ? "" : ",") + std::to_string(ss.startIndex) + "." + std::to_string(ss.numPrimitives);
+		o += (o.empty() ? "" : ";") + std::to_string(g.startIndex) + ":" + std::to_string(g.numPrimitives) + ":" + (subs.empty() ? "-" : subs);
+	}
+	return o.empty() ? "-" : o;
+}
+std::string sseRows(const std::vector<BSGeometrySegmentData>& v) {
+	std::string o;
+	for (auto& g : v)
+		o += (o.empty() ? "" : ";") + std::to_string(g.index) + ":" + std::to_string(g.numTris) + ":-";
+	return o.empty() ? "-" : o;
+}
+
+// c17.refit <mesh:… | load:path> <shapeIndex> <inf> <labels> <deleted vertex indices> : the raw segment ranges before and after
+// BSSubIndexTriShape::notifyVerticesDelete and the list of removed triangles it worked from
+std::string refit(const Args& a) {
+	return forked([&]() -> std::string {
+		NifFile nif;
+		auto f = split(a[1], ':');
+		NiShape* shape = nullptr;
+		if (f[0] == "load") {
+			if (nif.Load(f[1]) != 0)
+				return std::string("load-failed");
+			auto shapes = nif.GetShapes();
+			size_t k = static_cast<size_t>(std::stoul(a[2]));
+			if (k >= shapes.size())
+				return std::string("no-such-shape");
+			shape = shapes[k];
+		}
+		else
+			shape = buildMesh(nif, f);
+		auto sits = dynamic_cast<BSSubIndexTriShape*>(shape);
+		if (!sits)
+			return std::string("not-a-subindex-shape");
+		if (a[3] != "keep") {
+			NifSegmentationInfo inf;
+			if (a[3] != "-")
+				for (auto& s : split(a[3], ';')) {
+					auto p = split(s, ':');
+					NifSegmentInfo si;
+					si.partID = std::stoi(p[0]);
+					if (p.size() > 1 && !p[1].empty())
+						for (auto& x : split(p[1], ',')) {
+							NifSubSegmentInfo sub;
+							sub.partID = std::stoi(x);
+							si.subs.push_back(sub);
+						}
+					inf.segs.push_back(si);
+				}
+			std::vector<int> labels;
+			for (auto x : parseList(a[4]))
+				labels.push_back(static_cast<int>(x));
+			NifFile::SetShapeSegments(shape, inf, labels);
+		}
+		std::string pre = segRows(sits->VerifSegmentation()), ssePre = sseRows(sits->GetSegments());
+		uint32_t ntPre = sits->GetNumTriangles();
+		std::vector<uint16_t> idx;
+		for (auto x : parseList(a[5]))
+			idx.push_back(static_cast<uint16_t>(x));
+		std::sort(idx.begin(), idx.end());
+		idx.erase(std::unique(idx.begin(), idx.end()), idx.end());
+		sits->notifyVerticesDelete(idx);
+		std::string ids;
+		for (auto t : sits->deletedTris)
+			ids += (ids.empty() ? "" : ",") + std::to_string(t);
+		return "nt=" + std::to_string(ntPre) + "/" + std::to_string(sits->GetNumTriangles()) + " pre=" + pre + " ids=" + (ids.empty() ? "-" : ids) + " post=" + segRows(sits->VerifSegmentation()) +
+			   " ssepre=" + ssePre + " ssepost=" + sseRows(sits->GetSegments());
+	}, 60);
+}
+Reg r1("c17.run", run), r2("c17.refit", refit);
 } // namespace
